@@ -22,16 +22,21 @@ Ids(d) == 1..NObj(d)
 Pred(d) ==
     [outl  |-> Fin(OutRun(d, OutInit(d))),
      toc   |-> Fin(TocRun(d, OutInit(d))),
+     pages |-> LET r == PgRun(d, PgInit(d)) IN [pc |-> r.pc, cls |-> r.cls, ids |-> r.out],
      nd    |-> [i \in Ids(d) |-> LET t == GetDictionary(d, i) IN IF t = None THEN NA ELSE Fin(NdRun(d, NdInit(t)))],
      img   |-> [i \in Ids(d) |-> Fin(ImgRun(d, ImgInit(d, i)))],
      deref |-> [i \in Ids(d) |-> DerefRun(d, DerefInit(Ref(i))).pc],
      cont  |-> [i \in Ids(d) |-> ContRun(d, ContInit(d, i)).out],
      rsrc  |-> [i \in Ids(d) |-> LET r == RsrcRun(d, RsrcInit(d, i)) IN [t |-> r.pc, ids |-> r.ids]]]
 
+\* the public calls that start with get_pages() / page_iter().collect()
+PageQueries == {"get_pages", "page_iter", "extract_text", "extract_text_chunks", "get_object_page"}
+
 \* the walker prediction that speaks about observation o (NA when none does)
 About(d, p, o) ==
     CASE o.q = "get_outlines" -> p.outl
       [] o.q = "get_toc" -> p.toc
+      [] o.q \in PageQueries -> [pc |-> p.pages.pc, cls |-> p.pages.cls]
       [] o.q = "get_named_destinations" /\ o.id \in Ids(d) -> p.nd[o.id]
       [] o.q = "get_page_images" /\ o.id \in Ids(d) -> p.img[o.id]
       [] OTHER -> NA
@@ -41,8 +46,24 @@ Explains(pr, kind) ==
     \/ pr.pc = "overflow" /\ kind = "crash"
     \/ pr.pc = "diverge" /\ kind \in {"hang", "crash"}
 
-\* signature of one observation: the model's class if the model predicts this very failure, else generic
-Sig(d, p, o) == LET pr == About(d, p, o) IN IF Explains(pr, o.kind) THEN pr.cls ELSE o.q \o "." \o o.kind
+\* predicted non-total calls, as a sequence of [q, id, pc, cls]
+PBad(d, p) ==
+    LET E(q, i, pr) == IF pr.pc \in {"panic", "overflow", "diverge"}
+                       THEN <<[q |-> q, id |-> i, pc |-> pr.pc, cls |-> pr.cls]>> ELSE <<>>
+        S[i \in 0..NObj(d)] ==
+            IF i = 0 THEN <<>>
+            ELSE S[i - 1] \o E("get_named_destinations", i, p.nd[i]) \o E("get_page_images", i, p.img[i])
+    IN E("get_outlines", 0, p.outl) \o E("get_toc", 0, p.toc) \o E("get_pages", 0, p.pages) \o S[NObj(d)]
+
+\* signature of one observation: the model's class if the model predicts this very failure, else generic.
+\* q = "all" is a whole-document run that was lost and (time budget) not attributed to one query: it takes
+\* the class of the first predicted failure of that kind on this document, if there is one.
+Sig(d, p, o) ==
+    LET pr   == About(d, p, o)
+        pb   == PBad(d, p)
+        hits == {j \in 1..Len(pb) : Explains(pb[j], o.kind)}
+    IN IF o.q = "all" THEN (IF hits = {} THEN "all." \o o.kind ELSE pb[CHOOSE j \in hits : \A k \in hits : j <= k].cls)
+       ELSE IF Explains(pr, o.kind) THEN pr.cls ELSE o.q \o "." \o o.kind
 
 IsTag(t) == t \in {"ok", "err"}
 
@@ -59,15 +80,7 @@ Drift(d, p, r) ==
                  + B(r.cont[i].t = "ok" /\ r.cont[i].ids # p.cont[i])
                  + B(IsTag(r.rsrc[i].t) /\ (r.rsrc[i].t # p.rsrc[i].t \/ (r.rsrc[i].t = "ok" /\ r.rsrc[i].ids # p.rsrc[i].ids)))
     IN one(r.outl, p.outl) + one(r.toc, p.toc) + S[NObj(d)]
-
-\* predicted non-total calls, as a sequence of [q, id, pc, cls]
-PBad(d, p) ==
-    LET E(q, i, pr) == IF pr.pc \in {"panic", "overflow", "diverge"}
-                       THEN <<[q |-> q, id |-> i, pc |-> pr.pc, cls |-> pr.cls]>> ELSE <<>>
-        S[i \in 0..NObj(d)] ==
-            IF i = 0 THEN <<>>
-            ELSE S[i - 1] \o E("get_named_destinations", i, p.nd[i]) \o E("get_page_images", i, p.img[i])
-    IN E("get_outlines", 0, p.outl) \o E("get_toc", 0, p.toc) \o S[NObj(d)]
+       + B(r.pages.t = "ok" /\ (p.pages.pc # "ok" \/ r.pages.ids # p.pages.ids))
 
 Judge(rec) ==
     LET d    == rec.doc
